@@ -68,6 +68,8 @@ def main():
                 d = json.loads(l); done.add((d['file'], d['start'], d['end'], d['text']))
             except Exception: pass
     muts = [m for m in muts if (m['file'], m['start'], m['end'], m['text']) not in done]
+    prio = ['pubsub.go', 'gossipsub.go', 'score.go', 'rpc_queue.go', 'peer_gater.go', 'gossip_tracer.go', 'topic.go', 'comm.go', 'mcache.go', 'floodsub.go', 'randomsub.go', 'subscription.go']
+    muts.sort(key=lambda m: (prio.index(m['file']) if m['file'] in prio else len(prio), m['file'], m['start']))
     print(len(muts), 'mutants to run', file=sys.stderr)
     q = queue.Queue()
     for m in muts: q.put(m)
